@@ -6,7 +6,9 @@ import (
 	"fmt"
 	"math/rand/v2"
 	"net/http"
+	"sort"
 	"strconv"
+	"strings"
 	"sync"
 	"testing"
 
@@ -428,6 +430,7 @@ func TestVerif_C12(t *testing.T) {
 		r.Finish(0)
 		return
 	}
+	c12SeparatorTwins(r)
 	nb := pick(r, 64, 1024)
 	per := pick(r, 12, 40)
 	nSteps := pick(r, 30, 50)
@@ -509,5 +512,96 @@ func c12Race(r *Run, prod []*CfgSpec) {
 		wg.Wait()
 		l.evals += 16 * 300
 		l.nontrivN++
+	})
+}
+
+// c12SeparatorTwins: pairs of DIFFERENT valid configurations whose lists become equal when their elements are joined with
+// a byte that is legal inside a token (`|`, `!`, `~`, ...): an element moved across the boundary of two adjacent lists, or
+// two elements merged into one. Both are built in this process, in both orders, next to each other; each middleware
+// must answer according to ITS configuration (lesson of seeded change C12-n: a process-wide cache of internal
+// configurations keyed by a lossy rendering of the Config).
+func c12SeparatorTwins(r *Run) {
+	if r.Replaying() {
+		return
+	}
+	seps := []string{"|", "!", "#", "$", "%", "&", "'", "*", "+", "-", ".", "^", "_", "`", "~"}
+	r.Parallel(len(seps), func(l *Local) {
+		sep := seps[l.Batch]
+		base := func() cors.Config {
+			return cors.Config{Origins: []string{"https://example.com"}, MaxAgeInSeconds: 30}
+		}
+		type pair struct{ a, b cors.Config }
+		var pairs []pair
+		mk := func(f func(c *cors.Config)) cors.Config { c := base(); f(&c); return c }
+		// element moved across Methods | RequestHeaders, RequestHeaders | ResponseHeaders
+		pairs = append(pairs,
+			pair{mk(func(c *cors.Config) { c.Methods = []string{"PUT"}; c.RequestHeaders = []string{"x-a" + sep + "x-b"} }),
+				mk(func(c *cors.Config) { c.Methods = []string{"PUT" + sep + "x-a"}; c.RequestHeaders = []string{"x-b"} })},
+			pair{mk(func(c *cors.Config) {
+				c.RequestHeaders = []string{"x-a"}
+				c.ResponseHeaders = []string{"x-b" + sep + "x-c"}
+			}),
+				mk(func(c *cors.Config) {
+					c.RequestHeaders = []string{"x-a" + sep + "x-b"}
+					c.ResponseHeaders = []string{"x-c"}
+				})},
+			// two elements merged into one
+			pair{mk(func(c *cors.Config) { c.RequestHeaders = []string{"x-a", "x-b"} }), mk(func(c *cors.Config) { c.RequestHeaders = []string{"x-a" + sep + "x-b"} })},
+			pair{mk(func(c *cors.Config) { c.Methods = []string{"PUT", "PATCH"} }), mk(func(c *cors.Config) { c.Methods = []string{"PATCH" + sep + "PUT"} })},
+			pair{mk(func(c *cors.Config) { c.ResponseHeaders = []string{"x-a", "x-b"} }), mk(func(c *cors.Config) { c.ResponseHeaders = []string{"x-a" + sep + "x-b"} })},
+		)
+		for pi, p := range pairs {
+			for order := 0; order < 2; order++ {
+				first, second := p.a, p.b
+				if order == 1 {
+					first, second = p.b, p.a
+				}
+				m1, err1 := cors.NewMiddleware(first)
+				var m2 cors.Middleware
+				err2 := m2.Reconfigure(&second)
+				l.evals++
+				l.counters["separator_twin_pairs"]++
+				if err1 != nil || err2 != nil {
+					continue // acceptance is C05's business
+				}
+				for which, m := range []*cors.Middleware{m1, &m2} {
+					cfg := []cors.Config{first, second}[which]
+					other := []cors.Config{second, first}[which]
+					got := m.Config()
+					want := map[string]bool{}
+					for _, h := range cfg.RequestHeaders {
+						want[asciiLower(h)] = true
+					}
+					okCfg := got != nil && len(got.RequestHeaders) == len(want) && len(got.Methods) == len(cfg.Methods) && len(got.ResponseHeaders) == len(cfg.ResponseHeaders)
+					if okCfg {
+						for _, h := range got.RequestHeaders {
+							okCfg = okCfg && want[asciiLower(h)]
+						}
+					}
+					// a preflight that this configuration permits and the twin does not
+					probeOK := true
+					probe := ""
+					if len(cfg.RequestHeaders) > 0 {
+						names := make([]string, 0, len(cfg.RequestHeaders))
+						for _, h := range cfg.RequestHeaders {
+							names = append(names, asciiLower(h))
+						}
+						sort.Strings(names)
+						method := "GET"
+						if len(cfg.Methods) > 0 {
+							method = cfg.Methods[0]
+						}
+						q := preflightReq("https://example.com", method, []string{strings.Join(names, ",")}, false)
+						o := serve(m, q)
+						probe = reqString(q) + " -> " + o.String()
+						probeOK = o.ok2xx() && len(o.get(hACAO)) > 0
+					}
+					if !okCfg || !probeOK {
+						r.Violate("other-configuration-shows", "golden", fmt.Sprintf("two different configurations built in one process (separator %q, pair %d, order %d): the middleware configured with %s reports Config() %s and answers %s; the other one is %s", sep, pi, order, cfgString(&cfg), cfgString(got), probe, cfgString(&other)), nil)
+						return
+					}
+				}
+			}
+		}
 	})
 }
